@@ -200,6 +200,9 @@ def check_after(ex, spec, st, before, refs, r, crashed, delete, dry_run, break_l
                 problems.append('removed %s which is neither a requested band, an unreferenced block nor the lock' % p)
             if dry_run and p != 'GC_LOCK':
                 problems.append('dry run removed %s' % p)
+    # a lock that was there before (another collector's, or a stale one) is not this run's to remove unless break_lock was given
+    if spec.get('lock') and not break_lock and 'GC_LOCK' not in st.nodes:
+        problems.append('removed GC_LOCK although it was held by someone else and break_lock was not requested (neither a requested band, an unreferenced block nor the lock of this run)')
     wv = [v for v in st.violations if v[2] != 'GC_LOCK']     # the lock file is gc's own to create and remove
     if wv:
         problems.append('write-once monitor: %r' % (wv,))
